@@ -240,12 +240,71 @@ def engine_scenarios(tier, seed):
                    "cfg": dict(gen_configs.finish({"n": 2, "kind": ["b", "b"], "deps": [[], [1]], "roots": [2], "watch": True}, 900 + rep_),
                                id="bbw%d" % rep_, inh=[[], [1]]),
                    "bodies": {}, "actions": []})
+    # slow command resources must not delay unrelated targets, even on a runtime with two worker threads (C17)
+    sc.append({"type": "probes", "name": "slow_probes_do_not_delay_others",
+               "cfg": dict(gen_configs.finish({"n": 4, "kind": ["b", "b", "b", "b"], "deps": [[], [], [], [3]], "roots": [1, 2, 4]}, 995),
+                           id="bbprobes", scale=True), "bodies": {}, "actions": []})
     # watch mode: setting up the watcher of a later root fails (a 300-character path component): zinoma must exit with an
     # error and leave nothing behind of the roots it had already started
     sc.append({"type": "watchfail", "name": "watch_root_setup_failure",
                "cfg": dict(gen_configs.finish({"n": 4, "kind": ["s", "b", "b", "b"], "deps": [[], [], [], []], "roots": [1, 2, 3, 4], "watch": True}, 990),
                            id="bbwf"), "bodies": {}, "actions": []})
     return sc
+
+
+PROBES_YAML = """targets:
+  t1:
+    input:
+      - cmd_stdout: sleep 6; echo one
+    build: 'true'
+  t2:
+    input:
+      - cmd_stdout: sleep 6; echo two
+    build: 'true'
+  t3:
+    build: 'true'
+  t4:
+    dependencies: [t3]
+    build: 'true'
+"""
+
+
+def run_probes_scenario(s):
+    d = os.path.join(CACHE, "scratch", "bb_" + s["cfg"]["id"])
+    shutil.rmtree(d, ignore_errors=True)
+    os.makedirs(d)
+    open(os.path.join(d, "zinoma.yml"), "w").write(PROBES_YAML)
+    trace = d + ".ndjson"
+    if os.path.exists(trace):
+        os.unlink(trace)
+    t0 = time.time()
+    seen = {}
+
+    def watch_t4(_d):
+        # wait until the independent chain has run (bounded by the probes themselves)
+        while time.time() - t0 < 20:
+            try:
+                if any('"build_spawned"' in l and '"t":"t4"' in l for l in open(trace)):
+                    seen["t4"] = time.time() - t0
+                    return
+            except OSError:
+                pass
+            time.sleep(0.02)
+
+    r = run_zinoma(d, ["t1", "t2", "t4"], trace, timeout=60, actions=[(0.05, watch_t4)], env={"ASYNC_STD_THREAD_COUNT": "2"})
+    lines = [l for l in open(trace).read().splitlines() if l.strip()] if os.path.exists(trace) else []
+    raw = [json.dumps({"ev": "cfg", "t": s["cfg"]["id"], "cfg": s["cfg"]})]
+    raw += [l for l in lines if '"build_spawned"' in l or '"build_reaped"' in l or '"wake_build"' in l or '"build_begin"' in l]
+    raw.append(json.dumps({"ev": "h_indep", "t": "", "ms": int(seen.get("t4", 99) * 1000)}))
+    if r["timed_out"]:
+        raw.append(json.dumps({"ev": "h_stall", "t": ""}))
+    else:
+        raw.append(json.dumps({"ev": "h_proc", "t": "", "alive": len(r["leftovers"])}))
+    shutil.rmtree(d, ignore_errors=True)
+    if os.path.exists(trace):
+        os.unlink(trace)
+    return {"scenario": s, "raw": raw, "status": r["status"], "timed_out": r["timed_out"], "latency": r["latency"],
+            "leftovers": r["leftovers"], "stderr_tail": r["err"][-600:], "names_ok": True}
 
 
 WATCHFAIL_YAML = """targets:
@@ -391,6 +450,8 @@ def run_engine_scenario(s):
         return run_watch_scenario(s)
     if s.get("type") == "watchfail":
         return run_watchfail_scenario(s)
+    if s.get("type") == "probes":
+        return run_probes_scenario(s)
     d = os.path.join(CACHE, "scratch", "bb_" + s["cfg"]["id"])
     make_project(d, s["cfg"], s["bodies"])
     trace = d + ".ndjson"
